@@ -1,9 +1,13 @@
 use crate::internal::{consts, DirEntry, MiniAllocator, ObjType, Timestamp};
 use std::fmt;
 use std::path::{Path, PathBuf};
+#[cfg(not(cfb_verif))]
 use std::sync::{Arc, RwLock};
 use uuid::Uuid;
 use web_time::SystemTime;
+
+#[cfg(cfb_verif)]
+use crate::internal::sync::{Arc, RwLock};
 
 //===========================================================================//
 
